@@ -33,6 +33,12 @@ def boolean_roots(tm):
     return [(p, f, b) for p, f, r, b in patches.roots_and_roles(tm) if r is None and b is not None]
 
 
+GATE_PLUMBING = ("PartialEq", "Option::<T>::map", "Option::<T>::as_deref", "Option::<T>::as_ref", "Option::<T>::is_some_and",
+                 "Option::<T>::is_none_or", "Option::<T>::map_or", "Option::<T>::unwrap_or", "Option::<T>::copied", "Option::<T>::filter",
+                 "<impl str>::trim", "std::ops::FnMut::call_mut", "std::ops::FnOnce::call_once", "std::ops::Fn::call", "Deref>::deref",
+                 "std::convert::AsRef", "std::borrow::Borrow")
+
+
 def run(ck, models, tier):
     ck.decided, ck.not_decided = DECIDED, NOT_DECIDED
     ck.trusted += ["rustc MIR", "decode tables in analysis/isa.py", "std models (str::trim/ends_with/... are opaque predicates)"]
@@ -81,6 +87,14 @@ def run(ck, models, tier):
                 has_bool = any(x.strip() == "bool" for x in strs)
                 if is_eq and has_bool and sig in lv and not uses_leaf(core, lambda x: x.op in AFFIX):
                     holds_eq = (top.endswith("::eq") or top == "str_eq") != neg      # the atom, as it holds, states equality
+                    # what is compared must be the return type as the crate's extractor hands it over: between that and the comparison the
+                    # gate itself may only pass it along (Option plumbing, trimming) - not split, strip or otherwise take a part of it
+                    evs_ = []
+                    deps(v, core, events_out=evs_)
+                    cut = [e_ for e_ in evs_ if (fn_of_event(e_) == p or fn_of_event(e_).startswith(p + "::{closure")) and tm.facts.body(e_.name) is None
+                           and not any(k_ in e_.name for k_ in GATE_PLUMBING) and not e_.name.endswith(("::eq", "::ne"))]
+                    if cut:
+                        return "eq-bool-on-part", holds_eq, E("part", (cut[0].name,))
                     return "eq-bool", holds_eq, core
                 return "other", None, core
 
@@ -106,6 +120,12 @@ def run(ck, models, tier):
                 if good:
                     ck.ob("R10.2", "%s/install-on-equal-edge-of-equality-with-bool" % rn, tm.target, True,
                           "the installing path is on the equal edge of %s (equality of a part extracted from the recorded signature with the literal `bool`)" % fmt(good[0][2], 5), where(eff[0]))
+                    continue
+                part = [c for c in cls if c[0] == "eq-bool-on-part"]
+                if part:
+                    ck.ob("R10.2", "%s/gate-compares-a-part-of-the-return-type" % rn, tm.target, False,
+                          "the gate compares `bool` with something it derived from the extracted return type through %s: a return type that merely "
+                          "contains such a part (e.g. a user type `legacy::bool`, `&legacy::bool`) is accepted" % part[0][2].args[0], where(eff[0]))
                     continue
                 wrong_edge = [c for c in cls if c[0] == "eq-bool" and c[1] is False]
                 aff = [c for c in cls if c[0].startswith("affix")]
